@@ -290,7 +290,12 @@ func c04QueuedJob() Job {
 		for _, d := range []time.Duration{0, time.Millisecond, time.Second, time.Hour} {
 			for _, set := range []string{"fg", "bg"} {
 				for _, op := range []string{"add", "remove", "remove-then-add"} {
-					for _, spelled := range []string{"baz", "BAZ"} {
+					for _, spelled := range []string{"baz", "BAZ", "baz+backlog"} {
+						// +backlog: forty other lines between FOO and BAZ, more than the input queue holds
+						fill := 0
+						if strings.HasSuffix(spelled, "+backlog") {
+							spelled, fill = strings.TrimSuffix(spelled, "+backlog"), 40
+						}
 						var count [2]int
 						var cerr error
 						o := RunSeq(vx.Options{Horizon: 6 * time.Hour}, func(env *vx.Env) {
@@ -321,12 +326,16 @@ func c04QueuedJob() Job {
 									reg(1)
 								}
 							})
-							s.Feed(":o!u@h FOO", ":o!u@h BAZ")
+							lines := []string{":o!u@h FOO"}
+							for i := 0; i < fill; i++ {
+								lines = append(lines, fmt.Sprintf(":o!u@h FILL %d", i))
+							}
+							s.Feed(append(lines, ":o!u@h BAZ")...)
 							vx.Sleep(d + time.Second) // quiescence does not wait for a sleeping handler
 							vx.Quiesce()
 							s.End()
 						})
-						in := fmt.Sprintf("FOO and BAZ in one segment; the FOO handler takes %s, then %s a %s handler for %q", d, op, set, spelled)
+						in := fmt.Sprintf("FOO, %d other lines and BAZ in one segment; the FOO handler takes %s, then %s a %s handler for %q", fill, d, op, set, spelled)
 						e.Case(in)
 						want := [2]int{0, 1}
 						if op == "remove" {
@@ -345,7 +354,7 @@ func c04QueuedJob() Job {
 				}
 			}
 		}
-		e.Sample("FOO and BAZ in one segment; the FOO handler takes 1s, then add a bg handler for \"baz\"")
+		e.Sample("FOO, 0 other lines and BAZ in one segment; the FOO handler takes 1s, then add a bg handler for \"baz\"")
 		return e.Done()
 	}}
 }
@@ -679,7 +688,7 @@ func c04OverlapScenario(nbg, nev int) *explore.Scenario {
 func init() {
 	Register(&Prop{
 		ID:   "C04",
-		Rule: "all histories up to depth 5 (quick) / 6 (thorough) that end in an event, over 20 letters = register fg/bg (Handle, HandleFunc, HandleBG) under foo/FOO/Foo/baz, 8 scripted handlers (remove self, remove previous sibling, add to own set, add to other set; in scripted histories also: remove a later sibling), Remove of the first/second/last registered handler, events FOO and BAZ; each history runs on a fresh real session and per-handler invocation counts are compared with the multiset model after every event; plus registry changes made by a slow foreground handler while the next line is already received and queued (add / remove / replace a fg / bg handler for it after 0, 1 ms, 1 s, 1 h of virtual time); plus scripted histories, racing Handle/HandleBG/Remove calls from another goroutine (against a dispatch in flight, and two calls against each other: two first registrations of a name, registration against removal of the only handler, two removals), and back-to-back events whose background dispatches overlap, under K<=2 schedule deviations; distinct = distinct histories",
+		Rule: "all histories up to depth 5 (quick) / 6 (thorough) that end in an event, over 20 letters = register fg/bg (Handle, HandleFunc, HandleBG) under foo/FOO/Foo/baz, 8 scripted handlers (remove self, remove previous sibling, add to own set, add to other set; in scripted histories also: remove a later sibling), Remove of the first/second/last registered handler, events FOO and BAZ; each history runs on a fresh real session and per-handler invocation counts are compared with the multiset model after every event; plus registry changes made by a slow foreground handler while the next line is already received and queued (add / remove / replace a fg / bg handler for it after 0, 1 ms, 1 s, 1 h of virtual time; also with forty other lines queued in between, more than the input queue holds); plus scripted histories, racing Handle/HandleBG/Remove calls from another goroutine (against a dispatch in flight, and two calls against each other: two first registrations of a name, registration against removal of the only handler, two removals), and back-to-back events whose background dispatches overlap, under K<=2 schedule deviations; distinct = distinct histories",
 		Assumptions: []string{
 			"sequential histories run under the default scheduler with quiescence between top-level operations; interleavings are the subject of the handlers-concurrent / handlers-race families",
 			"each Remover is used at most once (guarded by the harness); a handler added to the other set during an event may or may not see that event",
